@@ -85,7 +85,7 @@ var props = []*core.Property{
 		technique:  "finite-domain tabulation with forking walk; failed-edge propagation rule on the scanner's CFGs; provenance of the entry's results",
 		expl:       "decides the decision logic around the scanner, not the scanner's grammar",
 		notCovered: []string{"completeness of the scanner for every RFC 8259 document and every cut point (grammar-level; not decided)"},
-		rules:      []*core.Rule{ruleTruncTable, ruleFailProp, ruleParseResults, ruleAccounting, ruleLexTables, ruleCap, ruleDepthCost, ruleJSONNodes, ruleTokenGate, ruleSnapshot, rulePools}}),
+		rules:      []*core.Rule{ruleTruncTable, ruleFailProp, ruleParseResults, ruleAccounting, ruleLexTables, ruleCap, ruleDepthCost, ruleJSONNodes, ruleTokenGate, ruleJSONGate, ruleSnapshot, rulePools}}),
 	mk(pd{id: "C09", level: "other",
 		levelText:  "Necessary conditions of JSON soundness: failure propagation; whole-mode acceptance is parsed == len; per-byte tables of every structural byte test in the container loops (only ',' continues, only the matching closer closes, '\"' starts a key, ':' follows it, everything else fails), value dispatch table; first-token gate.",
 		technique:  "finite-domain tabulation of byte dispatches (256 values each) with helper-call folding; failed-edge propagation",
@@ -108,8 +108,8 @@ var props = []*core.Property{
 		levelText:  "Sniffer map roles; the XML decoder has a usable CharsetReader before the first token; every returned label is lower-cased (XML: strings.ToLower; HTML: in-place ASCII lower-casing tabulated over 256 bytes, before any use); BOM dominates the meta prescan; utf-16* -> utf-8; pragma decision table over the prescan state equals WHATWG, per-tag state is reset; the pragma value scanner tests for an opening quote after skipping the blanks behind the equals sign.",
 		technique:  "typestate (field store before first token call); finite-domain tabulation; dominance rules",
 		expl:       "decides the label plumbing around the x/net tokenizer and encoding/xml",
-		notCovered: []string{"the WHATWG prescan as implemented by x/net/html", "quoting / whitespace variants inside the XML declaration", "the rest of the pragma value scanner (end of a bare or quoted label) beyond the order of its steps"},
-		rules:      []*core.Rule{ruleSnifferMap, ruleDecoderTypestate, ruleLowerCase, ruleHTMLOrder, rulePragmaValue, ruleParams, ruleReader, ruleLimitSlice}}),
+		notCovered: []string{"the WHATWG prescan as implemented by x/net/html", "whitespace variants inside the XML declaration (only the choice of quote character is decided)", "the rest of the pragma value scanner (end of a bare or quoted label) beyond the order of its steps"},
+		rules:      []*core.Rule{ruleSnifferMap, ruleDecoderTypestate, ruleLowerCase, ruleHTMLOrder, rulePragmaValue, ruleXMLQuote, ruleHTMLTokens, ruleLabelPaths, ruleQuotedLabels, ruleParams, ruleReader, ruleLimitSlice}}),
 	mk(pd{id: "C13", level: "other",
 		levelText:  "Line cutting agrees with the JSON truncation table (same order types); both detectors pass their own (header, limit) through it first; NDJSON lines are judged by the parsed length; thresholds tabulated (lines >= 2 and containers >= 1; fields >= 2 and records >= 2); csv reader: FieldsPerRecord untouched, detector's delimiter, EOF ends, any other error rejects.",
 		technique:  "finite-domain tabulation; path-sensitive error typestate; field-store inventory on the csv reader",
